@@ -139,11 +139,11 @@ func newV2(prefix string, ct *Controllers) (cg Cgroup, err error) {
 		path:    filepath.Join(basePath, prefix),
 		control: ct,
 	}
-	if _, err := os.Stat(v2.path); err == nil {
-		v2.existing = true
-	}
+	// created tells whether this call made the directory of the group itself:
+	// mkdir decides it atomically among concurrent callers
+	created := false
 	defer func() {
-		if err != nil && !v2.existing {
+		if err != nil && created {
 			remove(v2.path)
 		}
 	}()
@@ -155,15 +155,13 @@ func newV2(prefix string, ct *Controllers) (cg Cgroup, err error) {
 	// start from base dir
 	entries := strings.Split(prefix, "/")
 	current := ""
-	for _, e := range entries {
+	for i, e := range entries {
 		parent := current
 		current = current + "/" + e
 		// try mkdir if not exists
-		if _, err := os.Stat(filepath.Join(basePath, current)); os.IsNotExist(err) {
-			if err := os.Mkdir(filepath.Join(basePath, current), dirPerm); err != nil {
-				return nil, err
-			}
-		} else if err != nil {
+		if err := os.Mkdir(filepath.Join(basePath, current), dirPerm); err == nil {
+			created = i == len(entries)-1
+		} else if !os.IsExist(err) {
 			return nil, err
 		}
 
@@ -179,6 +177,7 @@ func newV2(prefix string, ct *Controllers) (cg Cgroup, err error) {
 			return nil, err
 		}
 	}
+	v2.existing = !created
 	return v2, nil
 }
 
